@@ -73,6 +73,7 @@ func runC14(c *Ctx) {
 	if roles := resolveDo(c, p); roles != nil {
 		// the client-level flush discipline that keeps zero-copy chained slices valid until they are written
 		ruleInputStream(c, p, roles, "C14.input")
+		ruleDiscard(c, p, roles, "C14")
 	}
 	c.R.Assumptions = append(c.R.Assumptions,
 		"net.Buffers.WriteTo writes the slices in order and consumes them; short writes are its concern (standard library)",
